@@ -11,12 +11,17 @@ Dissent(kind) ==
   CASE kind = "none"    -> Base
     [] kind = "path"    -> {Art(PA, "h1"), Art(<<"c">>, "h1")}
     [] kind = "digest"  -> {Art(PA, "h1"), Art(PB, "h2")}
+    \* digests that are nearly the agreed one: first / middle / last byte changed, last byte missing
+    [] kind = "digest_f" -> {Art(PA, "h1"), Art(PB, "h1.f")}
+    [] kind = "digest_m" -> {Art(PA, "h1"), Art(PB, "h1.m")}
+    [] kind = "digest_l" -> {Art(PA, "h1"), Art(PB, "h1.l")}
+    [] kind = "digest_t" -> {Art(PA, "h1"), Art(PB, "h1.t")}
     [] kind = "alg"     -> {Art(PA, "h1"), Art(PB, "s512:h1")}
     [] kind = "algmore" -> {Art(PA, "h1"), Art(PB, "both:h1")}
     [] kind = "extra"   -> Base \cup {Art(<<"c">>, "h1")}
     [] kind = "missing" -> {Art(PA, "h1")}
     [] kind = "empty"   -> {}
-Kinds7 == {"none", "path", "digest", "alg", "algmore", "extra", "missing", "empty"}
+Kinds7 == {"none", "path", "digest", "digest_f", "digest_m", "digest_l", "digest_t", "alg", "algmore", "extra", "missing", "empty"}
 
 \* the dissenting signer may also (or only) have run another COMMAND: that is merely warned about
 LinkFor(k, dissents, kind, side) ==
